@@ -69,13 +69,6 @@ class Suppression:
 
 SUPPRESSIONS = [
     Suppression(
-        "aiomysensors.transport.mqtt.MQTTTransport.connect",
-        r"topic_levels\[-2\]$",
-        S.IE,
-        "the subscripted list is the split('/') of an f-string that contains five literal '/' -> at least six elements",
-        "topic_levels_len",
-    ),
-    Suppression(
         "aiomysensors.transport.mqtt.MQTTTransport.read",
         r"self\._incoming_messages\.task_done\(\)$",
         S.VE,
@@ -283,9 +276,48 @@ class EEA:
 
     def _premise_received_message_invariant(self, site: Site) -> bool:
         f = self.prog.func(site.func)
-        tests = self._enclosing_if_tests(f, site.line)
-        if not any(isinstance(t, ast.Compare) and isinstance(t.ops[0], ast.Is) and isinstance(t.comparators[0], ast.Constant) and t.comparators[0].value is None for t in tests):
+        # path condition: under the invariant (ERROR items carry an error, MESSAGE items carry a message) no path
+        # reaches the raise - whatever the shape of the branches
+        from .cfg import CFG
+        from .prov import Canon
+
+        g = CFG(f.node)
+        cn = Canon(self.I, f, "")
+        targets = [n for n in g.nodes if isinstance(n.ast, ast.Raise) and n.ast.lineno == site.line]
+        if not targets:
             return False
+
+        def oracle(scn):
+            def ev(e):
+                if isinstance(e, ast.NamedExpr):
+                    return ev(e.value)
+                if isinstance(e, ast.UnaryOp) and isinstance(e.op, ast.Not):
+                    v = ev(e.operand)
+                    return None if v is None else not v
+                if isinstance(e, ast.BoolOp):
+                    vs = [ev(x) for x in e.values]
+                    if isinstance(e.op, ast.And):
+                        return False if any(v is False for v in vs) else True if all(v is True for v in vs) else None
+                    return True if any(v is True for v in vs) else False if all(v is False for v in vs) else None
+                if isinstance(e, ast.Compare) and len(e.ops) == 1 and isinstance(e.ops[0], (ast.Is, ast.IsNot, ast.Eq, ast.NotEq)):
+                    left = e.left.value if isinstance(e.left, ast.NamedExpr) else e.left
+                    L, R = cn.canon(left), norm(e.comparators[0])
+                    neg = isinstance(e.ops[0], (ast.IsNot, ast.NotEq))
+                    v = None
+                    if L.endswith(".message_type") and R.rsplit(".", 1)[-1] in ("ERROR", "MESSAGE"):
+                        v = scn == R.rsplit(".", 1)[-1]
+                    elif R == "None" and L.endswith(".error") and scn == "ERROR":
+                        v = False
+                    elif R == "None" and L.endswith(".message") and scn == "MESSAGE":
+                        v = False
+                    return None if v is None else (v != neg)
+                return None
+
+            return lambda n: ev(n.ast)
+
+        for scn in ("ERROR", "MESSAGE"):
+            if g.reach_avoiding([g.entry], lambda x: x in targets, lambda x: False, labels_skip=("exc",), from_succ=False, truth=oracle(scn)) is not None:
+                return False
         cls = self.prog.lookup_fullname("aiomysensors.transport.mqtt.ReceivedMessage")
         if cls is None or cls.kind != "class":
             return False
@@ -1186,6 +1218,13 @@ class EEA:
                     return {}
             return self._one(S.KE, self.site(fr, e, "subscript"), fr)
         if bt.startswith(("builtins.list", "list[", "builtins.str", "str", "builtins.bytes")):
+            k = e.slice.value if isinstance(e.slice, ast.Constant) and isinstance(e.slice.value, int) else -e.slice.operand.value if isinstance(e.slice, ast.UnaryOp) and isinstance(e.slice.op, ast.USub) and isinstance(e.slice.operand, ast.Constant) and isinstance(e.slice.operand.value, int) else None
+            if k is not None and bt.startswith(("builtins.list", "list[")):
+                need = k + 1 if k >= 0 else -k
+                have = self.min_split_len(fr.func, e.value, 0)
+                if have >= need:
+                    self.discharged.append({"site": self.site(fr, e, "subscript").loc(), "what": f"{base_txt}[{key_txt}]", "by": f"delimiter-count bound: the split string contains at least {have - 1} separator(s) on every call path, so the list has at least {have} elements"})
+                    return {}
             return self._one(S.IE, self.site(fr, e, "subscript"), fr)
         if bt.startswith(("tuple[", "builtins.tuple")):
             if isinstance(e.slice, ast.Constant) and isinstance(e.slice.value, int) and "..." not in bt:
@@ -1195,6 +1234,101 @@ class EEA:
             return {}
         self.unknown_calls.setdefault(f"subscript on {bt or '?'}: {base_txt}", f"{fr.module.relpath}:{e.lineno}")
         return {}
+
+    # ---- string shape: lower bound on the number of separators (replaces text-bound suppressions)
+
+    def min_split_len(self, f: FuncInfo, e: ast.expr, depth: int) -> int:
+        """Lower bound of len(e) when e is (a local bound once to) `<s>.split(<one-char constant>)`; else 0."""
+        if depth > 8:
+            return 0
+        if isinstance(e, ast.Name):
+            la = self.I.local_assigns(f).get(e.id) or []
+            if len(la) == 1 and isinstance(la[0], ast.expr) and e.id not in f.params:
+                return self.min_split_len(f, la[0], depth + 1)
+            return 0
+        if isinstance(e, ast.Call) and isinstance(e.func, ast.Attribute) and e.func.attr == "split" and len(e.args) == 1 and not e.keywords and isinstance(e.args[0], ast.Constant) and isinstance(e.args[0].value, str) and len(e.args[0].value) == 1:
+            t = self.prog.type_of(f.module, e.func.value) or ""
+            if t.split(".")[-1] != "str":
+                return 0
+            return self.min_count(f, e.func.value, e.args[0].value, depth + 1) + 1
+        return 0
+
+    def min_count(self, f: FuncInfo, e: ast.expr, ch: str, depth: int) -> int:
+        """Lower bound of the number of occurrences of ch in the string e, over every way e can be bound."""
+        if depth > 16:
+            return 0
+        if isinstance(e, ast.Constant):
+            return e.value.count(ch) if isinstance(e.value, str) else 0
+        if isinstance(e, ast.JoinedStr):
+            n = 0
+            for p_ in e.values:
+                if isinstance(p_, ast.Constant):
+                    n += str(p_.value).count(ch)
+                elif isinstance(p_, ast.FormattedValue) and p_.format_spec is None and p_.conversion == -1:
+                    # (mypy positions inside f-strings are unreliable: an untyped part is followed structurally -
+                    # anything that is not built from string constants contributes 0)
+                    t = self.prog.type_of(f.module, p_.value) or ""
+                    if t.split(".")[-1] in ("str", ""):
+                        n += self.min_count(f, p_.value, ch, depth + 1)
+            return n
+        if isinstance(e, ast.BinOp) and isinstance(e.op, ast.Add):
+            return self.min_count(f, e.left, ch, depth + 1) + self.min_count(f, e.right, ch, depth + 1)
+        if isinstance(e, ast.Name):
+            if e.id in f.params:
+                # a parameter: the minimum over every call site of f in the package (by name; extra sites only lower the bound)
+                best = None
+                pos = [p_ for p_ in f.positional_params if not (p_ in ("self", "cls") and f.cls is not None and not f.is_staticmethod())]
+                for g in self.prog.all_functions():
+                    for c in self.I.own_nodes(g):
+                        if not isinstance(c, ast.Call):
+                            continue
+                        fn = c.func
+                        nm = fn.attr if isinstance(fn, ast.Attribute) else fn.id if isinstance(fn, ast.Name) else None
+                        if nm != f.name:
+                            continue
+                        arg = None
+                        if e.id in pos and pos.index(e.id) < len(c.args):
+                            arg = c.args[pos.index(e.id)]
+                        for kw in c.keywords:
+                            if kw.arg == e.id:
+                                arg = kw.value
+                        v = self.min_count(g, arg, ch, depth + 1) if arg is not None else 0
+                        best = v if best is None else min(best, v)
+                # references that are not calls (passed as a callback) make the call sites unknown
+                refs = sum(1 for g in self.prog.all_functions() for x in self.I.own_nodes(g) if (isinstance(x, ast.Attribute) and x.attr == f.name or isinstance(x, ast.Name) and x.id == f.name) and not (isinstance(self.prog.parents.get(x), ast.Call) and self.prog.parents[x].func is x))
+                return 0 if best is None or refs else best
+            vals = []
+            n_for = 0
+            for n_ in self.I.own_nodes(f):
+                if isinstance(n_, (ast.For, ast.comprehension)) and isinstance(n_.target, ast.Name) and n_.target.id == e.id:
+                    vals.append(("iter", n_.iter))
+                    n_for += isinstance(n_, ast.For)
+            la = self.I.local_assigns(f).get(e.id) or []
+            assigns = [v for v in la if isinstance(v, ast.expr)]
+            if len(la) != len(assigns) + n_for:
+                return 0  # bound in some other way (with, except, unpacking ...)
+            outs = []
+            for v in assigns:
+                outs.append(self.min_count(f, v, ch, depth + 1))
+            for _k, it in vals:
+                outs.append(self.min_count_elems(f, it, ch, depth + 1))
+            return min(outs) if outs else 0
+        return 0
+
+    def min_count_elems(self, f: FuncInfo, it: ast.expr, ch: str, depth: int) -> int:
+        """Lower bound over the elements of an iterable of strings."""
+        if depth > 16:
+            return 0
+        if isinstance(it, (ast.List, ast.Tuple, ast.Set)) and it.elts:
+            return min(self.min_count(f, x, ch, depth + 1) for x in it.elts)
+        if isinstance(it, ast.Name) and it.id not in f.params:
+            la = self.I.local_assigns(f).get(it.id) or []
+            if len(la) == 1 and isinstance(la[0], ast.expr):
+                return self.min_count_elems(f, la[0], ch, depth + 1)
+            return 0
+        if isinstance(it, (ast.GeneratorExp, ast.ListComp)) and len(it.generators) == 1:
+            return self.min_count(f, it.elt, ch, depth + 1)
+        return 0
 
     def _iterates_schema_fields(self, name: ast.Name) -> bool:
         cur = self.prog.parents.get(name)
@@ -1691,8 +1825,12 @@ class EEA:
             if s_ is rets[0] or (hasattr(s_, "lineno") and s_.lineno >= rets[0].lineno):
                 break
             if isinstance(s_, ast.If) and isinstance(s_.test, ast.Compare) and len(s_.test.ops) == 1 and isinstance(s_.test.ops[0], (ast.NotEq, ast.Lt)):
-                a, b = norm(s_.test.left), norm(s_.test.comparators[0])
-                if a == f"len({lst})" and b == "len(self.fields)" and s_.body and isinstance(s_.body[-1], ast.Raise) and not s_.orelse:
+                from .prov import Canon
+
+                cn = Canon(self.I, f, "")
+                a, b = cn.canon(s_.test.left), cn.canon(s_.test.comparators[0])
+                want_a = cn.canon(ast.parse(f"len({lst})", mode="eval").body)
+                if a == want_a and b == "len(self.fields)" and s_.body and isinstance(s_.body[-1], ast.Raise) and not s_.orelse:
                     guard = True
             elif isinstance(s_, ast.Assign) and any(isinstance(t, ast.Name) and t.id == lst for t in s_.targets) and guard:
                 guard = False
